@@ -51,6 +51,8 @@ type Feat struct {
 	Canceled   bool `json:"canceled"`    // errors.Is context.Canceled
 	HTTPS      bool `json:"https"`       // req.URL.Scheme == "https"
 	StatusText int  `json:"status_text"` // first i in [400,600) with err.Error() == http.StatusText(i), 0 if none
+	Timeout    bool `json:"timeout"`     // the first error in the chain that has a Timeout method answers true
+	TimeoutSeen bool `json:"-"`
 }
 
 // Coq renders the features as a Gallina record.
@@ -59,9 +61,9 @@ func (f Feat) Coq() string {
 	if f.Status > 0 {
 		st = fmt.Sprintf("(Some %d)", f.Status)
 	}
-	return fmt.Sprintf("(mkfeat %s %d %s %s %s %s %s %s %s %s %s %s %d)",
+	return fmt.Sprintf("(mkfeat %s %d %s %s %s %s %s %s %s %s %s %s %d %s)",
 		coqfmt.Bool(f.Win), f.OpErr, coqfmt.Bool(f.RecordHdr), coqfmt.Bool(f.Cert), coqfmt.Bool(f.Ech), coqfmt.Bool(f.Alert),
-		st, coqfmt.Bool(f.Auth), coqfmt.Bool(f.Deny), coqfmt.Bool(f.Prohibited), coqfmt.Bool(f.Canceled), coqfmt.Bool(f.HTTPS), f.StatusText)
+		st, coqfmt.Bool(f.Auth), coqfmt.Bool(f.Deny), coqfmt.Bool(f.Prohibited), coqfmt.Bool(f.Canceled), coqfmt.Bool(f.HTTPS), f.StatusText, coqfmt.Bool(f.Timeout))
 }
 
 // NoFeat is the feature vector of an error nothing matches.
